@@ -12,3 +12,7 @@ package db
 //@ extern fmt.Errorf
 //@   pure
 //@   ensures result != nil
+
+//@ extern bytes.Compare
+//@   pure
+//@   ensures result == bytes_cmp(mem(a), off(a), len(a), mem(b), off(b), len(b))
